@@ -6,7 +6,7 @@ import os
 import pathlib
 from datetime import date
 from textwrap import indent
-from typing import Any, Dict, List
+from typing import Any, Dict, List, Optional
 from typing_extensions import Type
 
 import yaml
@@ -29,15 +29,44 @@ class Recognizer(IRecognizer):
 
     def __init__(
             self, registered_classes: Dict[str, Type],
-            additional_classes: Dict[Type, str]) -> None:
+            additional_classes: Dict[Type, str],
+            resolver: Optional[yaml.resolver.BaseResolver] = None) -> None:
         """Create a Recognizer.
 
         Args:
             registered_classes: The registered tags and corresponding
                     classes.
+            resolver: Used to find the type of a scalar that carries
+                    the explicit tag of a class.
         """
         self.__registered_classes = registered_classes
         self.__additional_classes = additional_classes
+        self.__resolver = resolver
+
+    def __without_own_tag(
+            self, node: yaml.Node, expected_type: Type) -> yaml.Node:
+        """Shows a scalar tagged as the class without that tag.
+
+        A _yatiml_recognize() function for a class that is written as
+        a scalar asks what type of scalar the node is. An explicit tag
+        naming the class hides that, so in that case it gets to see
+        the scalar as it would be without the tag.
+
+        Args:
+            node: The node to be recognized.
+            expected_type: The class to recognize it as.
+        """
+        if (
+                self.__resolver is not None
+                and isinstance(node, yaml.ScalarNode)
+                and node.tag == '!{}'.format(expected_type.__name__)):
+            plain = node.style is None
+            tag = self.__resolver.resolve(
+                    yaml.ScalarNode, node.value, (plain, not plain))
+            return yaml.ScalarNode(
+                    tag, node.value, node.start_mark, node.end_mark,
+                    node.style)
+        return node
 
     def __recognize_scalar(self, node: yaml.Node,
                            expected_type: Type) -> RecResult:
@@ -231,7 +260,8 @@ class Recognizer(IRecognizer):
         loc_str = '{}\n'.format(node.start_mark)
         if '_yatiml_recognize' in expected_type.__dict__:
             try:
-                unode = UnknownNode(self, node)
+                unode = UnknownNode(
+                        self, self.__without_own_tag(node, expected_type))
                 expected_type._yatiml_recognize(unode)
                 return {expected_type}, REC_OK
 
